@@ -307,6 +307,81 @@ def goodRpow : Tmpl :=
     toks := [.lp, .lp, .hole 1, .rp, .op .pow, .lp, .hole 0, .rp, .rp] }
 example : reflOK [goodRpow] = true := by decide +kernel
 
+/-! ### Unary minus as a build step
+
+`-e` does not go through a template: `Element.__neg__` / `Operator.__neg__` BUILD `NumericalMultiplicationOperator(e, -1.0)`.
+The probe applies one, two and three unary minus signs to an instance of every operator class (placeholder operands) and to a
+plain element, and records the emitted text with the text of `e` itself replaced by `hole 0` (tables `negated1/2/3`).
+The row must be n nested `(-1.0) * (…)` around `hole 0`: the operand is used as a unit and never dropped or replaced. -/
+
+/-- the tree is `n` nested multiplications by the literal −1 around `hole 0` (`-1` for the first sign on a plain element) -/
+def isNegN : Nat → Py → Bool
+  | 0, e => beqPy e (.hole 0)
+  | n + 1, .bin .mul (.neg (.num s)) r => (s == "1.0" || s == "1") && isNegN n r
+  | _ + 1, _ => false
+
+/-- `n` signs may also be built as `m ≤ n` nested multiplications with `m ≡ n (mod 2)`: folding `-(-e)` to `e` is exact
+(multiplying by −1.0 twice returns the same double), so a build that cancels pairs of signs is a harmless rewrite -/
+def isNegPar (n : Nat) (e : Py) : Bool := (List.range (n + 1)).any fun m => m % 2 == n % 2 && isNegN m e
+
+def negOK (n : Nat) (T : Table) : Bool := T.all fun t => isNegPar n (erase (shapeOf t))
+
+/-- value of n unary minus signs applied to `v` -/
+def negVal (C : Carrier α) : Nat → α → α
+  | 0, v => v
+  | n + 1, v => C.bin .mul (C.neg (C.num "1.0")) (negVal C n v)
+
+theorem isNegN_eval (C : Carrier α) (hC : C.num "1" = C.num "1.0") (ρ : Nat → α) (n : Nat) (e : Py)
+    (h : isNegN n e = true) : eval C ρ e = negVal C n (ρ 0) := by
+  fun_induction isNegN n e with
+  | case1 e =>
+    rw [beqPy_eq _ _ h]; simp [eval, negVal]
+  | case2 n s r ih =>
+    simp only [Bool.and_eq_true, Bool.or_eq_true, beq_iff_eq] at h
+    obtain ⟨hs, hr⟩ := h
+    simp only [eval, negVal, ih hr]
+    rcases hs with rfl | rfl
+    · rfl
+    · rw [hC]
+  | case3 => simp at h
+
+theorem negVal_add_two_mul (C : Carrier α)
+    (hI : ∀ v, C.bin .mul (C.neg (C.num "1.0")) (C.bin .mul (C.neg (C.num "1.0")) v) = v) (m : Nat) (v : α) :
+    ∀ k, negVal C (m + 2 * k) v = negVal C m v := by
+  intro k
+  induction k with
+  | zero => rfl
+  | succ k ih =>
+    have : m + 2 * (k + 1) = (m + 2 * k) + 1 + 1 := by omega
+    rw [this]
+    simp only [negVal]
+    rw [hI, ih]
+
+/-- **`-e` (n signs) denotes (−1.0)·…·(−1.0)·e with `e` as a unit**, for every probed class, in any arithmetic in which
+the literals `1` and `1.0` are the same number and multiplying by −1.0 twice is the identity (IEEE doubles) -/
+theorem neg_build_denotes (n : Nat) (T : Table) (h : negOK n T = true) (t : Tmpl) (ht : t ∈ T)
+    (α : Type) (C : Carrier α) (hC : C.num "1" = C.num "1.0")
+    (hI : ∀ v, C.bin .mul (C.neg (C.num "1.0")) (C.bin .mul (C.neg (C.num "1.0")) v) = v) (ρ : Nat → α) :
+    eval C ρ (shapeOf t) = negVal C n (ρ 0) := by
+  unfold negOK at h
+  rw [List.all_eq_true] at h
+  have h1 := h t ht
+  simp only [isNegPar, List.any_eq_true, List.mem_range, Bool.and_eq_true, beq_iff_eq] at h1
+  obtain ⟨m, hm, hpar, hN⟩ := h1
+  rw [← eval_erase C ρ (shapeOf t), isNegN_eval C hC ρ m _ hN]
+  obtain ⟨k, rfl⟩ : ∃ k, n = m + 2 * k := ⟨(n - m) / 2, by omega⟩
+  exact (negVal_add_two_mul C hI m (ρ 0) k).symm
+
+/-- witness for a sign fold that takes the operand of `abs`/`exp` for "the number" (both are subclasses of the wrapper of
+plain numbers): `-(-abs(x))` is built as the literal `-1.0` — the operand is dropped, the obligation is false on that row -/
+def foldedAbs : Tmpl := { cls := "AbsOperator", arity := 1, toks := [.op .sub, .num "1.0"] }
+theorem C02_witness_neg_fold : negOK 2 [foldedAbs] = false := by decide +kernel
+
+def goodAbs2 : Tmpl :=
+  { cls := "AbsOperator", arity := 1,
+    toks := [.lp, .op .sub, .num "1.0", .rp, .op .mul, .lp, .lp, .op .sub, .num "1.0", .rp, .op .mul, .lp, .hole 0, .rp, .rp] }
+example : negOK 2 [goodAbs2] = true := by decide +kernel
+
 /-- every class of the C02 vocabulary is present in the table -/
 def vocabulary : List String :=
   ["AdditionOperator", "SubtractionOperator", "MultiplicationOperator", "DivisionOperator", "ModOperator",
@@ -402,6 +477,8 @@ example : tableOK L demoTable = true ∧ specOK demoTable = true ∧
 #print axioms C02_parse_unique
 #print axioms C02_parse_complete
 #print axioms refl_build_denotes
+#print axioms neg_build_denotes
+#print axioms C02_witness_neg_fold
 #print axioms C02_witness_rpow_swapped
 #print axioms C02_parse_decides
 #print axioms C02_witness_bare_sub
